@@ -3,7 +3,7 @@
    field of large characteristic, hence the abstract theorem applies; coordinates of curve points are
    reduced, so "congruent" is "equal".  Instantiated to the SM2 curve at the end: the associativity
    premise of SM2Facts follows from "sm2_p is prime" alone. *)
-From Coq Require Import ZArith Znumtheory Lia Setoid Morphisms Bool Nsatz.
+From Coq Require Import ZArith Znumtheory Lia Setoid Morphisms Bool NsatzTactic.
 From GmsmVerif Require Import EC.ECAffine EC.JacFormulas EC.ECAffineProofs EC.SM2Curve SM2.ECAssocField SM2.ECAssocAbstract.
 Open Scope Z_scope.
 
